@@ -746,6 +746,15 @@ func (s *DB) moveMergedRoots(ctx context.Context, newRoot string, mergedRoots ma
 	}
 }
 
+// gone reports whether err says that an object does not exist (any more): what
+// an earlier, interrupted vacuum leaves behind. Every other read error means
+// that the store could not be read now, and must stop a vacuum: what it cannot
+// diff it must not delete the only pointer to.
+func gone(err error) bool {
+	var ae awserr.Error
+	return errors.As(err, &ae) && ae.Code() == s3.ErrCodeNoSuchKey
+}
+
 func (s *DB) getHistoricRootsAndNodes(
 	ctx context.Context,
 	olderThan time.Time,
@@ -779,6 +788,9 @@ func (s *DB) getHistoricRootsAndNodes(
 		}
 		parent, err := crdt.Load(ctx, s.crdt.Config, &parentName, *parentRoot)
 		if err != nil {
+			if !gone(err) {
+				return nil, nil, fmt.Errorf("load version %s: %w", parentName, err)
+			}
 			if logFunc != nil {
 				logFunc(fmt.Sprintf("error loading parent %v: %v\n", parentRoot, err))
 			}
@@ -788,6 +800,9 @@ func (s *DB) getHistoricRootsAndNodes(
 			childRoot := children[childName]
 			child, err := crdt.Load(ctx, s.crdt.Config, &childName, *childRoot)
 			if err != nil {
+				if !gone(err) {
+					return nil, nil, fmt.Errorf("load version %s: %w", childName, err)
+				}
 				if logFunc != nil {
 					logFunc(fmt.Sprintf("error loading child %v: %v\n", childName, err))
 				}
@@ -803,6 +818,9 @@ func (s *DB) getHistoricRootsAndNodes(
 					return true, nil
 				})
 			if err != nil {
+				if !gone(err) {
+					return nil, nil, fmt.Errorf("diff versions %s and %s: %w", parentName, childName, err)
+				}
 				if logFunc != nil {
 					logFunc(fmt.Sprintf("error diffing %s: %v\n", childName, err))
 				}
@@ -1048,6 +1066,9 @@ func DeleteHistoricVersions(ctx context.Context, s *DB, before time.Time) error 
 	// so we could delete it too if it meets the history requirement.
 	if s.crdt.Source != nil && !s.IsDirty() && s.Size() == 0 {
 		root, _, err := loadRoot(ctx, s.root, *s.crdt.Source)
+		if err != nil && !gone(err) {
+			return fmt.Errorf("load current version: %w", err)
+		}
 		if err == nil && root.Created.Before(before) {
 			_, err := s.s3Client.DeleteObjectWithContext(ctx, &s3.DeleteObjectInput{
 				Key:    aws.String(s.root.Prefix + *s.crdt.Source),
